@@ -2,6 +2,7 @@
 
     ops:
       rx <src> <valid> <s>...          oracle row: regex source, compiles?, the strings it matches
+      idna <host> <ascii> <ok>         oracle row: idna::domain_to_ascii of a hostname on which it is not the identity
       add|del <pos> <host> <kind> <pathval> <hasm> <m> <hasc> <c> <redirect|-1> <auth|-1>
       probe <host> <path> <method>
       permcheck                         (implementation-only oracle; no observation)
@@ -20,7 +21,8 @@ Definition tab_ok (tb : table) (src : bytes) : bool :=
 Definition tab_match (tb : table) (src s : bytes) : bool :=
   match aget src tb with Some (_, l) => existsb (beq s) l | None => false end.
 
-Record rstate := mkr { r_tab : table; r_rt : router; r_dead : bool; r_trie : trie Z }.
+Record rstate := mkr { r_tab : table; r_rt : router; r_dead : bool; r_trie : trie Z;
+                       r_idna : list (bytes * (bytes * bool)) }.
 
 Definition bytes_of (ts : list tok) : list bytes :=
   flat_map (fun t => match t with TB b => [b] | _ => [] end) ts.
@@ -58,36 +60,71 @@ Definition route_toks (o : option route) : list tok :=
      TN (r_redirect r); tn_bool (r_auth r)]
   end.
 
+(** [idna::domain_to_ascii] is an oracle (rows of the case, answers of the real
+    crate).  It is applied to the hostname ahead of the model: the code applies
+    it inside [DomainRule::from_str] (exact / wild-card arms) and in
+    [add/remove_tree_rule]; for hostnames without '/', on which it preserves
+    '*' and is idempotent (both checked by the driver), that is the same.  A
+    failing conversion is [InvalidDomain] (after the path rule was parsed), or
+    [RemoveRoute] for the removal of a tree frontend.
+    [inr true] = idna failed, [inr false] = the path rule does not parse. *)
+Definition with_idna (st : rstate) (ofr : option frontend) : option (frontend + bool) :=
+  match ofr with
+  | None => None
+  | Some fr =>
+    match aget (f_host fr) (r_idna st) with
+    | None => Some (inl fr)
+    | Some (a, true) =>
+      Some (inl (mkfront (f_pos fr) a (f_pkind fr) (f_pval fr) (f_method fr) (f_cluster fr) (f_redirect fr) (f_auth fr)))
+    | Some (_, false) =>
+      match parse_path (tab_ok (r_tab st)) (f_pkind fr) (f_pval fr) with
+      | Some _ => Some (inr true)
+      | None => Some (inr false)
+      end
+    end
+  end.
+
 Definition step (st : rstate) (op : list tok) : rstate * list tok :=
   let bad := (st, [TS "badop"]) in
   match op with
   | TS name :: args =>
     if name =? "rx" then
       match args with
-      | TB src :: TN v :: ms => (mkr (r_tab st ++ [(src, ((v =? 1)%Z, bytes_of ms))]) (r_rt st) (r_dead st) (r_trie st), [])
+      | TB src :: TN v :: ms => (mkr (r_tab st ++ [(src, ((v =? 1)%Z, bytes_of ms))]) (r_rt st) (r_dead st) (r_trie st) (r_idna st), [])
+      | _ => bad
+      end
+    else if name =? "idna" then
+      match args with
+      | [TB h; TB a; TN ok] => (mkr (r_tab st) (r_rt st) (r_dead st) (r_trie st) (r_idna st ++ [(h, (a, (ok =? 1)%Z))]), [])
       | _ => bad
       end
     else if name =? "permcheck" then (st, [])
     else if r_dead st then (st, [TS "skipped"])
     else if name =? "add" then
-      match parse_front args with
-      | Some fr =>
+      match with_idna st (parse_front args) with
+      | Some (inr e) => (st, opres_toks (if e then OErrDomain else OErrPath))
+      | Some (inl fr) =>
         let '(rt, r) := add_front (tab_ok (r_tab st)) (tab_match (r_tab st)) (r_rt st) fr in
-        (mkr (r_tab st) rt (is_panic r) (r_trie st), opres_toks r)
+        (mkr (r_tab st) rt (is_panic r) (r_trie st) (r_idna st), opres_toks r)
       | None => bad
       end
     else if name =? "del" then
-      match parse_front args with
-      | Some fr =>
+      match with_idna st (parse_front args) with
+      | Some (inr e) =>
+        (st, opres_toks (if e then (match parse_front args with
+                                    | Some f0 => match f_pos f0 with Tree => OErrRemove | _ => OErrDomain end
+                                    | None => OErrDomain end)
+                         else OErrPath))
+      | Some (inl fr) =>
         let '(rt, r) := remove_front (tab_ok (r_tab st)) (tab_match (r_tab st)) (r_rt st) fr in
-        (mkr (r_tab st) rt (is_panic r) (r_trie st), opres_toks r)
+        (mkr (r_tab st) rt (is_panic r) (r_trie st) (r_idna st), opres_toks r)
       | None => bad
       end
     else if name =? "tins" then
       match args with
       | [TB k; TN v] =>
         let '(t, r) := insert (tab_ok (r_tab st)) (r_trie st) k v in
-        (mkr (r_tab st) (r_rt st) (r_dead st) t,
+        (mkr (r_tab st) (r_rt st) (r_dead st) t (r_idna st),
          [TS (match r with IOk => "ok" | IExisting => "existing" | IFailed => "failed" end)])
       | _ => bad
       end
@@ -95,7 +132,7 @@ Definition step (st : rstate) (op : list tok) : rstate * list tok :=
       match args with
       | [TB k] =>
         let '(t, b) := remove (r_trie st) k in
-        (mkr (r_tab st) (r_rt st) (r_dead st) t, [TS (if b then "ok" else "notfound")])
+        (mkr (r_tab st) (r_rt st) (r_dead st) t (r_idna st), [TS (if b then "ok" else "notfound")])
       | _ => bad
       end
     else if name =? "tget" then
@@ -111,7 +148,7 @@ Definition step (st : rstate) (op : list tok) : rstate * list tok :=
       match args with
       | [TB k; TN aw] =>
         (mkr (r_tab st) (r_rt st) (r_dead st)
-             (modify_mut (tab_match (r_tab st)) (r_trie st) k (aw =? 1)%Z (fun v => (v + 1)%Z)),
+             (modify_mut (tab_match (r_tab st)) (r_trie st) k (aw =? 1)%Z (fun v => (v + 1)%Z)) (r_idna st),
          match lookup_mut (tab_match (r_tab st)) (r_trie st) k (aw =? 1)%Z with
          | Some (k', v) => [TS "some"; TB k'; TN v]
          | None => [TS "none"]
@@ -134,4 +171,4 @@ Fixpoint run_from (st : rstate) (ops : list (list tok)) : list (list tok) :=
   end.
 
 Definition run_case (ops : list (list tok)) : list (list tok) :=
-  run_from (mkr [] empty_router false root) ops.
+  run_from (mkr [] empty_router false root []) ops.
